@@ -134,9 +134,9 @@ class ConstEval:
 
     def operand(self, env, tok):
         tok = tok.strip()
-        m = re.match(r"(?:copy|move) \((_\d+)\.(\d): \w+\)$", tok)
+        m = re.match(r"(?:copy|move) \((_\d+)\.(\d): (\w+)\)$", tok)
         if m:
-            return env[m.group(1)][int(m.group(2))], None
+            return env[m.group(1)][int(m.group(2))], (m.group(3) if m.group(3) in BITS else None)
         m = re.match(r"(?:copy|move) (_\d+)$", tok)
         if m:
             v = env[m.group(1)]
